@@ -447,6 +447,12 @@ impl TreeSink for RcDom {
     }
 
     fn append_before_sibling(&self, sibling: &Handle, child: NodeOrText<Handle>) {
+        // The new node may have an old parent, possibly the very same one: detach it
+        // first, so that the position of `sibling` is looked up in the final child list.
+        if let NodeOrText::AppendNode(node) = &child {
+            remove_from_parent(node);
+        }
+
         let (parent, i) = get_parent_and_index(sibling)
             .expect("append_before_sibling called on node without parent");
 
